@@ -6,7 +6,7 @@
     PARTIAL: the round-trip theorem parse(print c) = abs c is proved here for the stream-selector
     sub-grammar with an unbounded number of matchers; for the rest of the grammar it is established by the
     correspondence against generator-computed expectations, not by a theorem (see DESIGN.md). *)
-From LogQLV Require Import Base.Bytes Base.FloatX Model.Tables Model.Syntax Model.Parser Proofs.ParserP Proofs.PredP Proofs.PipelineP Proofs.LogRangeP Proofs.QueryP Proofs.UnwrapP Proofs.VecParamP Proofs.QuantileP Proofs.BinRangeP Proofs.BinModP Proofs.BinLitP Model.Lexer Proofs.LexerP Proofs.LexerTightP Proofs.LexParseP Proofs.BinTextP.
+From LogQLV Require Import Base.Bytes Base.FloatX Model.Tables Model.Syntax Model.Parser Proofs.ParserP Proofs.PredP Proofs.PipelineP Proofs.LogRangeP Proofs.QueryP Proofs.UnwrapP Proofs.VecParamP Proofs.QuantileP Proofs.BinRangeP Proofs.BinModP Proofs.BinLitP Proofs.ParenP Model.Lexer Proofs.LexerP Proofs.LexerTightP Proofs.LexParseP Proofs.BinTextP.
 
 (** every selector {l1 op1 "v1", ..., ln opn "vn"} with any number of matchers, all four operators, any value bytes (regex
     values that compile) and any label names -- whether the lexer classifies a name as Ident or as a keyword (by, on, json,
@@ -279,6 +279,23 @@ Example bin_lit_example :
   parse_tokens (print_bin_lit_r anch rn (fun _ => TIdent) OpAnd m0 a None half 0.5%float) = Rejected /\
   length (print_bin_lit_r anch rn (fun _ => TIdent) OpGt mb a None half 0.5%float) = 16%nat.
 Proof. repeat split; vm_compute; reflexivity. Qed.
+
+(** redundant parentheses around a metric expression are kept as a ParenExpr node:  ( rate ( {..} [5m] ) )  denotes
+    EParen (range aggregation)  (the correspondence compares the trees of differently parenthesised texts modulo these nodes) *)
+Theorem paren_parse :
+  forall (anch : bytes -> bool) (re_names : bytes -> option (list bytes)) (cls : bytes -> ttype) (a : operand),
+  wf_operand anch re_names cls a [plain TCloseParen (spelling TCloseParen)] ->
+  parse_tokens (print_paren anch re_names cls a) = Parsed (EParen (operand_expr a)).
+Proof. exact paren_parse_lemma. Qed.
+Print Assumptions paren_parse.
+
+Example paren_example :
+  let anch := fun _ : bytes => true in
+  let rn := fun _ : bytes => Some (@nil bytes) in
+  let sel := [ {| m_label := ["a"%byte]; m_op := OpEq; m_value := ["x"%byte] |} ] in
+  let a := {| a_op := RangeOpRate; a_sel := sel; a_sts := [SLine OpEq ["e"%byte] false]; a_rtxt := ["5"%byte; "m"%byte]; a_rns := 300000000000; a_off := None |} in
+  parse_tokens (print_paren anch rn (fun _ => TIdent) a) = Parsed (EParen (operand_expr a)) /\ length (print_paren anch rn (fun _ => TIdent) a) = 15%nat.
+Proof. split; vm_compute; reflexivity. Qed.
 
 (** vector aggregations with the operand directly in parentheses, with or without a leading integer parameter:
     topk ( 3 , rate ( .. ) ), bottomk ( 1 , .. ), sort ( .. ), sort_desc ( .. ), sum ( .. )  -- [k] is the parameter token's text and
